@@ -90,6 +90,14 @@ func c48Types() []evType {
 		evType{"AnyStruct?", "any", []evVal{{"nil", "nil"}, {"1", "1"}}},
 		evType{"[AnyStruct]", "any", []evVal{{"[1, true]", "[1, true]"}}},
 		evType{"{String: AnyStruct}", "any", []evVal{{`{"k": 1}`, `{"k": 1}`}}},
+		evType{"&Int", "reference", []evVal{{"$GrefI()", "5"}}},
+		evType{"&S", "reference", []evVal{{"$GrefS()", "$P.S(x: 9)"}}},
+		evType{"&[Int]", "reference", []evVal{{"$GrefA()", "[1, 2]"}}},
+		evType{"auth(Mutate) &[Int]", "reference", []evVal{{"$GrefAM()", "[1, 2]"}}},
+		evType{"&Int?", "reference", []evVal{{"$GrefI()", "5"}, {"nil", "nil"}}},
+		evType{"[&Int]", "shared-reference", []evVal{{"$GtwoRefs()", "[5, 5]"}, {"[$GrefI(), $GrefI()]", "[5, 5]"}}},
+		evType{"{String: &Int}", "shared-reference", []evVal{{"$GrefDict()", ""}}},
+		evType{"SR", "shared-reference", []evVal{{"$GrefStruct()", "$P.SR(a: 5, b: 5)"}}},
 		evType{"Capability<&Int>", "capability", []evVal{{"getAccount(0x1).capabilities.get<&Int>(/public/nothing)", ""}}},
 		evType{"Capability", "capability", []evVal{{"getAccount(0x1).capabilities.get<&Int>(/public/nothing)", ""}}},
 		evType{"InclusiveRange<Int>", "range", []evVal{{"InclusiveRange(1, 5, step: 2)", ""}}},
@@ -108,9 +116,31 @@ const c48UserTypes = `  access(all) struct interface I {}
   access(all) struct S: I { access(all) let x: Int; init(x: Int) { self.x = x } }
   access(all) struct S2 { access(all) let s: S; access(all) let o: Int?; init(s: S, o: Int?) { self.s = s; self.o = o } }
   access(all) enum En: UInt8 { access(all) case a; access(all) case b }
+  access(all) struct SR { access(all) let a: &Int; access(all) let b: &Int; view init(a: &Int, b: &Int) { self.a = a; self.b = b } }
 `
 
-var c48UserNames = []string{"S2", "S", "En", "I"}
+// referents of the reference-typed event arguments and helpers that build values sharing one reference;
+// $D = declaration of the three variables (script globals or contract fields + init), $G = access prefix.
+const c48Referents = `$D
+  access(all) view fun refI(): &Int { return &$GGI }
+  access(all) view fun refA(): &[Int] { return &$GGArr }
+  access(all) view fun refAM(): auth(Mutate) &[Int] { return &$GGArr }
+  access(all) view fun refS(): &S { return &$GGSv }
+  access(all) view fun twoRefs(): [&Int] { let r = &$GGI as &Int; return [r, r] }
+  access(all) view fun refDict(): {String: &Int} { let r = &$GGI as &Int; return {"x": r, "y": r} }
+  access(all) view fun refStruct(): SR { let r = &$GGI as &Int; return SR(a: r, b: r) }
+`
+
+func c48UserDecls(contract bool) string {
+	d, g := "  access(all) var GI: Int = 5\n  access(all) var GArr: [Int] = [1, 2]\n  access(all) var GSv: S = S(x: 9)", ""
+	if contract {
+		d = "  access(all) var GI: Int\n  access(all) var GArr: [Int]\n  access(all) var GSv: S\n  init() { self.GI = 5; self.GArr = [1, 2]; self.GSv = S(x: 9) }"
+		g = "self."
+	}
+	return c48UserTypes + strings.ReplaceAll(strings.ReplaceAll(c48Referents, "$D", d), "$G", g)
+}
+
+var c48UserNames = []string{"S2", "SR", "S", "En", "I"}
 
 // evField / evDecl: one event of the enumeration.
 type evField struct {
@@ -119,6 +149,7 @@ type evField struct {
 	Expr string `json:"expr"`
 	Want string `json:"want"`
 	Cls  string `json:"class"`
+	Pre  string `json:"pre,omitempty"` // statement run before the emit (binds a local shared by several fields); statement contexts only
 }
 
 type evDecl struct {
@@ -138,7 +169,25 @@ func (e evDecl) emit(name string) string {
 	for i, f := range e.Fields {
 		as[i] = f.Name + ": " + f.Expr
 	}
+	pre := ""
+	for _, f := range e.Fields {
+		if f.Pre != "" && !strings.Contains(pre, f.Pre) {
+			pre += f.Pre + "; "
+		}
+	}
+	if pre != "" {
+		return fmt.Sprintf("if true { %semit %s(%s) }", pre, name, strings.Join(as, ", "))
+	}
 	return fmt.Sprintf("emit %s(%s)", name, strings.Join(as, ", "))
+}
+
+func (e evDecl) hasPre() bool {
+	for _, f := range e.Fields {
+		if f.Pre != "" {
+			return true
+		}
+	}
+	return false
 }
 
 func (e evDecl) class() string {
@@ -147,6 +196,40 @@ func (e evDecl) class() string {
 		cs[i] = f.Cls
 	}
 	return strings.Join(cs, "+")
+}
+
+// c48SharedEvents: events whose fields are given one and the same value, one and the same reference, or
+// containers that share a reference. Judged by the ordinary conformance oracle.
+func c48SharedEvents() []evDecl {
+	f := func(name, t, expr, want, pre string) evField {
+		return evField{Name: name, T: t, Expr: expr, Want: want, Cls: "shared", Pre: pre}
+	}
+	bind := map[string]string{
+		"&Int": "let r = $GrefI()", "&S": "let r = $GrefS()", "&[Int]": "let r = $GrefA()", "auth(Mutate) &[Int]": "let r = $GrefAM()",
+		"[Int]": "let r = [1, 2]", "S": "let r = S(x: 1)", "String": `let r = "s"`, "{String: Int}": `let r = {"k": 1}`,
+	}
+	want := map[string]string{"&Int": "5", "&S": "$P.S(x: 9)", "&[Int]": "[1, 2]", "auth(Mutate) &[Int]": "[1, 2]",
+		"[Int]": "[1, 2]", "S": "$P.S(x: 1)", "String": `"s"`, "{String: Int}": `{"k": 1}`}
+	var out []evDecl
+	for _, t := range []string{"&Int", "&S", "&[Int]", "auth(Mutate) &[Int]", "[Int]", "S", "String", "{String: Int}"} {
+		pre, w := bind[t], want[t]
+		// twice, three times (with an unrelated field in between and at the end), and once plain + once optional
+		out = append(out,
+			evDecl{Fields: []evField{f("a", t, "r", w, pre), f("b", t, "r", w, pre)}},
+			evDecl{Fields: []evField{f("a", t, "r", w, pre), f("n", "Int", "1", "1", ""), f("b", t, "r", w, pre), f("c", t, "r", w, pre)}},
+			evDecl{Fields: []evField{f("a", t, "r", w, pre), f("b", t+"?", "r", w, pre), f("c", "Int", "1", "1", "")}},
+			evDecl{Fields: []evField{f("a", "["+t+"]", "[r, r]", "["+w+", "+w+"]", pre), f("b", t, "r", w, pre)}},
+		)
+	}
+	// a reference next to containers that hold the same reference
+	pre := "let r = $GrefI()"
+	out = append(out,
+		evDecl{Fields: []evField{f("a", "&Int", "r", "5", pre), f("b", "SR", "SR(a: r, b: r)", "$P.SR(a: 5, b: 5)", pre)}},
+		evDecl{Fields: []evField{f("a", "{String: &Int}", `{"x": r, "y": r}`, "", pre), f("b", "&Int", "r", "5", pre)}},
+		evDecl{Fields: []evField{f("a", "[[&Int]]", "[[r], [r, r]]", "[[5], [5, 5]]", pre)}},
+		evDecl{Fields: []evField{f("a", "&Int?", "r", "5", pre), f("b", "&Int?", "r", "5", pre), f("c", "&Int?", "nil", "nil", "")}},
+	)
+	return out
 }
 
 // c48Chunk is the replayable unit: a list of events emitted from one context.
@@ -182,12 +265,17 @@ func (c *c48Chunk) sources() (contract, script string) {
 			fmt.Fprintf(&body, "    %s\n", e.emit(name))
 		}
 	}
+	g := ""
 	if c.Ctx == "contract" {
-		contract = "access(all) contract CX {\n" + c48UserTypes + decls.String() + "  access(all) fun go() {\n" + strings.ReplaceAll(body.String(), "S(", "S(") + "  }\n}\n"
+		g = "self."
+	}
+	declText, bodyText := strings.ReplaceAll(decls.String(), "$G", g), strings.ReplaceAll(body.String(), "$G", g)
+	if c.Ctx == "contract" {
+		contract = "access(all) contract CX {\n" + c48UserDecls(true) + declText + "  access(all) fun go() {\n" + bodyText + "  }\n}\n"
 		script = "import CX from 0x1\naccess(all) fun main() { CX.go() }\n"
 		return
 	}
-	script = c48UserTypes + decls.String() + "access(all) fun main() {\n" + body.String() + "}\n"
+	script = c48UserDecls(false) + declText + "access(all) fun main() {\n" + bodyText + "}\n"
 	return "", script
 }
 
@@ -228,6 +316,14 @@ func normType(t, prefix string) string {
 			return "{" + normType(k, prefix) + ":" + normType(v, prefix) + "}"
 		}
 		return "{" + normType(inner, prefix) + "}"
+	}
+	if strings.HasPrefix(t, "&") {
+		return "&" + normType(t[1:], prefix)
+	}
+	if strings.HasPrefix(t, "auth(") {
+		if i := strings.Index(t, ")"); i > 0 {
+			return stripSpaces(t[:i+1]) + normType(t[i+1:], prefix)
+		}
 	}
 	for _, u := range c48UserNames {
 		if t == u {
@@ -307,6 +403,9 @@ func conforms(v cadence.Value, t cadence.Type) string {
 			}
 		}
 		return ""
+	case *cadence.ReferenceType:
+		// a reference is delivered as the value it points to; a non-optional reference field can never be empty
+		return conforms(v, tt.Type)
 	case *cadence.EnumType:
 		e, ok := v.(cadence.Enum)
 		if !ok || e.EnumType.ID() != tt.ID() {
@@ -369,6 +468,12 @@ func c48JudgeEvent(ev cadence.Event, e evDecl, name, prefix string) (string, str
 	if got, want := ev.EventType.ID(), prefix+"."+name; got != want {
 		return "type-id", fmt.Sprintf("event type ID %s, declared %s", got, want)
 	}
+	// conformance first: a payload with an empty (Go nil) field cannot even be encoded by a host
+	for name, typ := range ev.EventType.FieldsMappedByName() {
+		if m := conforms(ev.FieldsMappedByName()[name], typ); m != "" {
+			return "value-does-not-conform", fmt.Sprintf("field %s: %s", name, m)
+		}
+	}
 	order, err := eventFieldOrder(ev)
 	if err != nil {
 		return "event-not-encodable", err.Error()
@@ -407,7 +512,12 @@ func c48JudgeEvent(ev cadence.Event, e evDecl, name, prefix string) (string, str
 
 // eventFieldOrder returns the field names in payload order, as a host sees
 // them when it encodes the event (JSON-Cadence keeps the payload order).
-func eventFieldOrder(ev cadence.Event) ([]string, error) {
+func eventFieldOrder(ev cadence.Event) (names []string, err error) {
+	defer func() {
+		if p := recover(); p != nil {
+			names, err = nil, fmt.Errorf("encoding the event panicked: %v", p)
+		}
+	}()
 	b, err := jsoncdc.Encode(ev)
 	if err != nil {
 		return nil, err
@@ -430,7 +540,12 @@ func eventFieldOrder(ev cadence.Event) ([]string, error) {
 }
 
 // eventWire is the event as a host would put it on the wire (JSON-Cadence); used for the engine differential.
-func eventWire(ev cadence.Event) string {
+func eventWire(ev cadence.Event) (wire string) {
+	defer func() {
+		if p := recover(); p != nil {
+			wire = fmt.Sprintf("unencodable (panic: %v)", p)
+		}
+	}()
 	b, err := jsoncdc.Encode(ev)
 	if err != nil {
 		return "unencodable: " + ev.String()
@@ -579,14 +694,14 @@ func runC48(env *mc.Env) {
 	var singles, pairs []evDecl
 	for _, t := range types {
 		for _, v := range t.Vals {
-			singles = append(singles, evDecl{Fields: []evField{{"a", t.T, v.Expr, v.Want, t.Class}}})
+			singles = append(singles, evDecl{Fields: []evField{{"a", t.T, v.Expr, v.Want, t.Class, ""}}})
 		}
 	}
 	// the checker decides which types are event parameter types: one probe per type; pairs only over the accepted ones
 	accepted := make([]bool, len(types))
 	mc.ParallelFor(env, len(types), func(i int) {
 		t := types[i]
-		c := &c48Chunk{Ctx: "function", Events: []evDecl{{Fields: []evField{{"a", t.T, t.Vals[0].Expr, "", t.Class}}}}}
+		c := &c48Chunk{Ctx: "function", Events: []evDecl{{Fields: []evField{{"a", t.T, t.Vals[0].Expr, "", t.Class, ""}}}}}
 		rej, _, _, _, _ := c48RunChunk(c, false)
 		accepted[i] = !rej
 	})
@@ -600,6 +715,9 @@ func runC48(env *mc.Env) {
 		}
 	}
 	env.R.Set("types_refused_as_event_parameters_by_the_checker", rejNames)
+	if len(accTypes)*2 < len(types) {
+		env.R.HarnessError("the checker refuses %d of %d candidate field types: the prelude or the generator is broken (%v)", len(rejNames), len(types), rejNames)
+	}
 	for _, t1 := range accTypes {
 		for _, t2 := range accTypes {
 			v1s, v2s := t1.Vals[:1], t2.Vals[:1]
@@ -608,7 +726,7 @@ func runC48(env *mc.Env) {
 			}
 			for _, v1 := range v1s {
 				for _, v2 := range v2s {
-					pairs = append(pairs, evDecl{Fields: []evField{{"b", t1.T, v1.Expr, v1.Want, t1.Class}, {"a", t2.T, v2.Expr, v2.Want, t2.Class}}})
+					pairs = append(pairs, evDecl{Fields: []evField{{"b", t1.T, v1.Expr, v1.Want, t1.Class, ""}, {"a", t2.T, v2.Expr, v2.Want, t2.Class, ""}}})
 				}
 			}
 		}
@@ -625,6 +743,10 @@ func runC48(env *mc.Env) {
 	}
 	add("function", pairs)
 	add("contract", pairs)
+	// the same value / the same reference in several fields (a local bound before the emit: statement contexts)
+	shared := c48SharedEvents()
+	add("function", shared)
+	add("contract", shared)
 	if env.Thorough() {
 		add("pre-condition", pairs)
 		add("post-condition", pairs)
@@ -1132,7 +1254,7 @@ func c48DestroyCases(env *mc.Env) []*c48Destroy {
 func init() {
 	mc.Register(&mc.Check{
 		ID:   "C48",
-		Rule: "part A: every event with one parameter (every listed type x every listed value) emitted from a function, a pre-condition, a post-condition and an imported contract, and every event with two parameters over all ordered type pairs (function and contract contexts; all four in thorough), run on both engines; each delivered event must carry the declared type ID, the declared field names in declaration order, field types equal to the declared ones, values that conform to the declared field type (recursive conformance check on the exported value) and, where stated, the exact value. Part B: every default ResourceDestroyed event with 1-2 default arguments over the allowed forms (literals, self.uuid, self.f, self.st.b, self.st.c.b, self.d[k], widened optional, base.f and attachment fields) on a resource whose fields are mutated after creation, and every containment tree (root destroyed directly / inside an array / inside an optional / by a callee; children in field, array, dictionary, optional, nil optional, attachment; grandchildren) where every resource has ResourceDestroyed(uuid, tag): exactly one event per destroyed resource with the values at destruction time, same order in both engines; non-trivial = distinct accepted case",
+		Rule: "part A: every event with one parameter (every listed type x every listed value) emitted from a function, a pre-condition, a post-condition and an imported contract, and every event with two parameters over all ordered type pairs (function and contract contexts; all four in thorough), including reference-typed parameters (&Int, &S, &[Int], auth refs, optional refs, containers and structs of references) and events whose 2-4 fields are given the same value / the same reference / containers sharing it, run on both engines; each delivered event must carry the declared type ID, the declared field names in declaration order, field types equal to the declared ones, values that conform to the declared field type (recursive conformance check on the exported value) and, where stated, the exact value. Part B: every default ResourceDestroyed event with 1-2 default arguments over the allowed forms (literals, self.uuid, self.f, self.st.b, self.st.c.b, self.d[k], widened optional, base.f and attachment fields) on a resource whose fields are mutated after creation, and every containment tree (root destroyed directly / inside an array / inside an optional / by a callee; children in field, array, dictionary, optional, nil optional, attachment; grandchildren) where every resource has ResourceDestroyed(uuid, tag): exactly one event per destroyed resource with the values at destruction time, same order in both engines; non-trivial = distinct accepted case",
 		Assumptions: []string{
 			"cadence.Value.String() of exported values is the comparison format for expected values",
 			"field-type identity is compared through cadence type IDs with user types qualified by the declaring location",
